@@ -289,6 +289,9 @@ impl Incremental {
 fn global_key(metadata: &Metadata, defines: &[String]) -> Option<String> {
     let build = toml::to_string(&metadata.build).ok()?;
     let lint = toml::to_string(&metadata.lint).ok()?;
+    // The emitter lays out restored files' outputs under `[format]`, and a
+    // cache hit skips emit, so a format change must invalidate the store.
+    let format = toml::to_string(&metadata.format).ok()?;
     let lockfile = fs::read_to_string(&metadata.lockfile_path).unwrap_or_default();
     let defines = defines.join("\x1f");
     // Keyed on the binary itself, not just the version (see binary_fingerprint).
@@ -299,6 +302,7 @@ fn global_key(metadata: &Metadata, defines: &[String]) -> Option<String> {
         &metadata.project.name,
         &build,
         &lint,
+        &format,
         &lockfile,
         &defines,
     ]))
